@@ -525,8 +525,9 @@ Definition s1_builtins : list str := Eval compute in map s_
 Definition fr_tyin (strict : bool) (t : ty) : bool := if strict then ty_s1in t else true.
 Definition fr_ty (strict : bool) (t : ty) : bool := if strict then ty_s1 t else true.
 
-(* callable inside the fragment: the modelled built-ins and the user's functions *)
-Definition call_frag (name : str) : bool := mem_str name s1_builtins || negb (is_some (builtin_sig name)).
+(* callable inside the fragment: the modelled built-ins, test, and the user's functions *)
+Definition call_frag (name : str) : bool :=
+  mem_str name s1_builtins || negb (is_some (builtin_sig name)) || str_eqb name n_test.
 
 Section Frag.
 Context (strict : bool).
@@ -733,7 +734,16 @@ Definition why_program (P : program) : string :=
           | None => ("func/" ++ why_stmts 1000 (p_funcs P) (Some (fn_ret fd)) false G0 (fn_body fd))%string
           | Some _ => "func-signature"%string
           end
-      | None => "handler"%string
+      | None =>
+          match find (fun h => negb (wt_handler (p_funcs P) g h)) (p_handlers P) with
+          | Some h =>
+              let G0 := [params_frame (h_params h); g] in
+              match wt_stmts (p_funcs P) (Some TNone) false G0 (h_body h) with
+              | None => ("on/" ++ why_stmts 1000 (p_funcs P) (Some TNone) false G0 (h_body h))%string
+              | Some _ => "on-signature"%string
+              end
+          | None => "handler"%string
+          end
       end
   | Some _ => "env"%string
   end.
